@@ -12,15 +12,15 @@ REJECTABLE = ['foreign', 'alien', 'rescheduled']
 # strata weights, number of simulation cases per tier, extras
 SIM_PLANS = {
     'C01': dict(n=(1600, 16000), strata={'contend': 4, 'simul': 3, 'zero': 1, 'benign': 1},
-                adversary=0.55, permute=0.35, delays=('none', 'fixed', 'fixed')),
+                adversary=0.55, permute=0.35, delays=('none', 'fixed', 'fixed', 'model')),
     'C02': dict(n=(1000, 10000), strata={'contend': 2, 'simul': 2, 'benign': 1, 'tight': 1,
                                        'refuse': 1, 'zero': 1, 'units': 1},
                 adversary=0.3, permute=0.3),
     'C03': dict(n=(1600, 16000), strata={'benign': 3, 'contend': 3, 'zero': 1, 'units': 1},
-                delays=('none', 'fixed', 'fixed')),
+                delays=('none', 'fixed', 'fixed', 'model')),
     'C04': dict(n=(1600, 16000), strata={'benign': 3, 'contend': 3, 'simul': 2, 'zero': 1,
                                        'units': 1, 'refuse': 1},
-                adversary=0.3, adv_profiles=('skip',), delays=('none', 'fixed')),
+                adversary=0.3, adv_profiles=('skip',), delays=('none', 'fixed', 'model')),
     'C05': dict(n=(1400, 14000), strata={'tight': 3, 'refuse': 3, 'simul': 3, 'contend': 3,
                                        'benign': 1, 'zero': 1, 'units': 1},
                 full_bound=True),
@@ -38,7 +38,7 @@ SIM_PLANS = {
     'C15': dict(n=(800, 8000), strata={'benign': 3, 'contend': 2, 'zero': 1},
                 delays=('fixed',)),
     'C17': dict(n=(1600, 16000), strata={'contend': 4, 'simul': 3, 'benign': 2},
-                pairings=('dynamic',), delays=('none', 'fixed')),
+                pairings=('dynamic',), delays=('none', 'fixed', 'model')),
     'C18': dict(n=(600, 6000), strata={'tight': 1}),
     'C19': dict(n=(1200, 12000), strata={'contend': 2, 'simul': 2, 'benign': 2, 'tight': 1,
                                        'refuse': 1, 'zero': 1}),
@@ -106,6 +106,12 @@ def make_sim_case(job):
                                  'prob': rng.choice([0.2, 0.35, 0.6])}
         if tier == 'thorough' and plan.get('permute') and rng.random() < plan['permute']:
             case['permute'] = rng.randint(0, 10 ** 6)
+        if not plan.get('full_bound') and not case.get('adversary') and not case.get('permute') \
+                and rng.random() < 0.12:
+            # the same properties must hold when the run is paused and resumed
+            k = rng.randint(1, 15)
+            pts = sorted(set(k + rng.randint(1, 12) for _ in range(rng.randint(0, 2))))
+            case['pause'] = [k] + pts + ['end']
         return case
     return None
 
